@@ -1,5 +1,5 @@
 From Coq Require Import Reals ZArith List String.
-From OV Require Import Ops RInst XR Gen.Seidel Model.Seidel Spec.S_Seidel Lemmas.L_Seidel.
+From OV Require Import Ops RInst XR Gen.Seidel Model.Seidel Spec.S_Seidel Lemmas.L_Seidel Lemmas.L_Seidel2.
 Local Open Scope R_scope.
 Import ListNotations.
 
@@ -135,3 +135,116 @@ Theorem C08_third_order_identities :
 Proof. exact third_order_identities. Qed.
 Print Assumptions C08_third_order_identities.
 
+
+(** orders of the terms: aperture scale s on the marginal ray, field scale h on the chief ray *)
+Theorem C08_TSC_scaling :
+  forall n n' c y u u' yb ub ub' dn dn' H nl ul s h : R,
+       s <> 0%R -> h <> 0%R -> n <> 0%R -> n' <> 0%R -> H <> 0%R -> (nl * ul)%R <> 0%R ->
+       TSC_row (mkGlob (O:=ROps) (s * h * H) nl (s * ul))
+         (mkRow (O:=ROps) n n' c (s * y) (s * u) (s * u') (h * yb) (h * ub) (h * ub') dn dn') =
+       (s * s * s * TSC_row (mkGlob (O:=ROps) H nl ul) (mkRow (O:=ROps) n n' c y u u' yb ub ub' dn dn'))%R.
+Proof. intros; apply TSC_scaling; assumption. Qed.
+Print Assumptions C08_TSC_scaling.
+
+Theorem C08_CC_scaling :
+  forall n n' c y u u' yb ub ub' dn dn' H nl ul s h : R,
+       s <> 0%R -> h <> 0%R -> n <> 0%R -> n' <> 0%R -> H <> 0%R -> (nl * ul)%R <> 0%R ->
+       CC_row (mkGlob (O:=ROps) (s * h * H) nl (s * ul))
+         (mkRow (O:=ROps) n n' c (s * y) (s * u) (s * u') (h * yb) (h * ub) (h * ub') dn dn') =
+       (s * s * h * CC_row (mkGlob (O:=ROps) H nl ul) (mkRow (O:=ROps) n n' c y u u' yb ub ub' dn dn'))%R.
+Proof. intros; apply CC_scaling; assumption. Qed.
+Print Assumptions C08_CC_scaling.
+
+Theorem C08_TAC_scaling :
+  forall n n' c y u u' yb ub ub' dn dn' H nl ul s h : R,
+       s <> 0%R -> h <> 0%R -> n <> 0%R -> n' <> 0%R -> H <> 0%R -> (nl * ul)%R <> 0%R ->
+       TAC_row (mkGlob (O:=ROps) (s * h * H) nl (s * ul))
+         (mkRow (O:=ROps) n n' c (s * y) (s * u) (s * u') (h * yb) (h * ub) (h * ub') dn dn') =
+       (s * h * h * TAC_row (mkGlob (O:=ROps) H nl ul) (mkRow (O:=ROps) n n' c y u u' yb ub ub' dn dn'))%R.
+Proof. intros; apply TAC_scaling; assumption. Qed.
+Print Assumptions C08_TAC_scaling.
+
+Theorem C08_TPC_scaling :
+  forall n n' c y u u' yb ub ub' dn dn' H nl ul s h : R,
+       s <> 0%R -> h <> 0%R -> n <> 0%R -> n' <> 0%R -> H <> 0%R -> (nl * ul)%R <> 0%R ->
+       TPC_row (mkGlob (O:=ROps) (s * h * H) nl (s * ul))
+         (mkRow (O:=ROps) n n' c (s * y) (s * u) (s * u') (h * yb) (h * ub) (h * ub') dn dn') =
+       (s * h * h * TPC_row (mkGlob (O:=ROps) H nl ul) (mkRow (O:=ROps) n n' c y u u' yb ub ub' dn dn'))%R.
+Proof. intros; apply TPC_scaling; assumption. Qed.
+Print Assumptions C08_TPC_scaling.
+
+Theorem C08_DC_scaling :
+  forall n n' c y u u' yb ub ub' dn dn' H nl ul s h : R,
+       s <> 0%R -> h <> 0%R -> n <> 0%R -> n' <> 0%R -> H <> 0%R -> (nl * ul)%R <> 0%R ->
+       DC_row (mkGlob (O:=ROps) (s * h * H) nl (s * ul))
+         (mkRow (O:=ROps) n n' c (s * y) (s * u) (s * u') (h * yb) (h * ub) (h * ub') dn dn') =
+       (h * h * h * DC_row (mkGlob (O:=ROps) H nl ul) (mkRow (O:=ROps) n n' c y u u' yb ub ub' dn dn'))%R.
+Proof. intros; apply DC_scaling; assumption. Qed.
+Print Assumptions C08_DC_scaling.
+
+Theorem C08_TAchC_scaling :
+  forall n n' c y u u' yb ub ub' dn dn' H nl ul s h : R,
+       s <> 0%R -> h <> 0%R -> n <> 0%R -> n' <> 0%R -> H <> 0%R -> (nl * ul)%R <> 0%R ->
+       TAchC_row (mkGlob (O:=ROps) (s * h * H) nl (s * ul))
+         (mkRow (O:=ROps) n n' c (s * y) (s * u) (s * u') (h * yb) (h * ub) (h * ub') dn dn') =
+       (s * TAchC_row (mkGlob (O:=ROps) H nl ul) (mkRow (O:=ROps) n n' c y u u' yb ub ub' dn dn'))%R.
+Proof. intros; apply TAchC_scaling; assumption. Qed.
+Print Assumptions C08_TAchC_scaling.
+
+Theorem C08_TchC_scaling :
+  forall n n' c y u u' yb ub ub' dn dn' H nl ul s h : R,
+       s <> 0%R -> h <> 0%R -> n <> 0%R -> n' <> 0%R -> H <> 0%R -> (nl * ul)%R <> 0%R ->
+       TchC_row (mkGlob (O:=ROps) (s * h * H) nl (s * ul))
+         (mkRow (O:=ROps) n n' c (s * y) (s * u) (s * u') (h * yb) (h * ub) (h * ub') dn dn') =
+       (h * TchC_row (mkGlob (O:=ROps) H nl ul) (mkRow (O:=ROps) n n' c y u u' yb ub ub' dn dn'))%R.
+Proof. intros; apply TchC_scaling; assumption. Qed.
+Print Assumptions C08_TchC_scaling.
+
+Theorem C08_no_index_step_contributes_nothing :
+  forall n c y u yb ub dn H nl ul : R,
+       n <> 0%R -> (nl * ul)%R <> 0%R ->
+       let g := mkGlob (O:=ROps) H nl ul in
+       let r := mkRow (O:=ROps) n n c y u u yb ub ub dn dn in
+       TSC_row g r = 0%R /\ CC_row g r = 0%R /\ TAC_row g r = 0%R /\ TPC_row g r = 0%R /\ DC_row g r = 0%R /\
+       TAchC_row g r = 0%R /\ TchC_row g r = 0%R.
+Proof. intros; apply no_index_step_contributes_nothing; assumption. Qed.
+Print Assumptions C08_no_index_step_contributes_nothing.
+
+Theorem C08_spherical_family_stop_independent :
+  forall (H1 H2 nl ul : R) (rows1 rows2 : list (srow ROps)),
+       H1 <> 0%R -> H2 <> 0%R -> (nl * ul)%R <> 0%R ->
+       Forall2 same_marginal rows1 rows2 -> Forall (fun a : srow ROps => r_n1 a <> 0%R) rows1 ->
+       fam TSC_row (mkGlob (O:=ROps) H1 nl ul) rows1 = fam TSC_row (mkGlob (O:=ROps) H2 nl ul) rows2.
+Proof. exact spherical_family_stop_independent. Qed.
+Print Assumptions C08_spherical_family_stop_independent.
+
+Theorem C08_spherical_sum_stop_independent :
+  forall (H1 H2 nl ul : R) (rows1 rows2 : list (srow ROps)),
+       H1 <> 0%R -> H2 <> 0%R -> (nl * ul)%R <> 0%R ->
+       Forall2 same_marginal rows1 rows2 -> Forall (fun a : srow ROps => r_n1 a <> 0%R) rows1 ->
+       seidel_sum (mkGlob (O:=ROps) H1 nl ul) (fam TSC_row (mkGlob (O:=ROps) H1 nl ul) rows1) =
+       seidel_sum (mkGlob (O:=ROps) H2 nl ul) (fam TSC_row (mkGlob (O:=ROps) H2 nl ul) rows2).
+Proof. exact spherical_sum_stop_independent. Qed.
+Print Assumptions C08_spherical_sum_stop_independent.
+
+Theorem C08_same_marginal_def :
+  forall a b : srow ROps,
+       same_marginal a b <->
+       (r_n0 a = r_n0 b /\ r_n1 a = r_n1 b /\ r_c a = r_c b /\ r_ya a = r_ya b /\ r_ua0 a = r_ua0 b /\ r_ua1 a = r_ua1 b).
+Proof. intros a b; unfold same_marginal; tauto. Qed.
+Print Assumptions C08_same_marginal_def.
+
+Theorem C08_petzval_family_ray_independent :
+  forall (H nl ul : R) (rows1 rows2 : list (srow ROps)),
+       (nl * ul)%R <> 0%R ->
+       Forall2 (fun a b : srow ROps => r_n0 a = r_n0 b /\ r_n1 a = r_n1 b /\ r_c a = r_c b) rows1 rows2 ->
+       Forall (fun a : srow ROps => r_n0 a <> 0%R /\ r_n1 a <> 0%R) rows1 ->
+       fam TPC_row (mkGlob (O:=ROps) H nl ul) rows1 = fam TPC_row (mkGlob (O:=ROps) H nl ul) rows2.
+Proof. exact petzval_family_ray_independent. Qed.
+Print Assumptions C08_petzval_family_ray_independent.
+
+Theorem C08_plane_has_no_petzval :
+  forall (g : sglob ROps) (a : srow ROps),
+       r_c a = 0%R -> r_n0 a <> 0%R -> r_n1 a <> 0%R -> (g_nl g * g_ul g)%R <> 0%R -> TPC_row g a = 0%R.
+Proof. exact plane_has_no_petzval. Qed.
+Print Assumptions C08_plane_has_no_petzval.
